@@ -1153,7 +1153,14 @@ func (p *Prog) ImmutableFieldBound(f FieldRef, k float64, le bool) bool {
 		if le {
 			return pr.LE(v, atomConst(k))
 		}
-		return pr.GE(v, atomConst(k))
+		if pr.GE(v, atomConst(k)) {
+			return true
+		}
+		// integers: x > k-1 is x >= k
+		if st := structOf(f.Type); st != nil && f.Index < st.NumFields() && isIntegral(st.Field(f.Index).Type()) && k == math.Trunc(k) {
+			return pr.GT(v, atomConst(k-1))
+		}
+		return false
 	}
 	for _, c := range ctors {
 		al := p.allocOf(c, f.Type)
